@@ -2195,18 +2195,24 @@ class ItemSpaceImpl(DynamicSpaceImpl):
         else:
             raise ValueError("invalid name")
 
-        DynamicSpaceImpl.__init__(
-            self, parent, name, parent._named_itemspaces, base, refs, arguments, cache
-        )
         try:
+            DynamicSpaceImpl.__init__(
+                self, parent, name, parent._named_itemspaces, base, refs,
+                arguments, cache
+            )
             self._bind_args(self.arguments)
             self._init_child_spaces(self)
             self._init_dynbaserefs()
         except BaseException:
             # Do not leave a half-built instance registered
             # with its bases and its parent
-            self.on_delete()
-            parent.named_itemspaces.del_item(self.name)
+            try:
+                self.on_delete()
+            except Exception:
+                if self in base._dynamic_subs:
+                    base._dynamic_subs.remove(self)
+            if name in parent.named_itemspaces:
+                parent.named_itemspaces.del_item(name)
             raise
 
     def _init_root(self, parent):
